@@ -55,8 +55,16 @@ class FMD:
         if name == "thrift_name":
             return Str("FileMetaData")
         if name == "key_value_metadata":
-            return Custom(KVList())
+            # per-path state of the field: the list update_custom_metadata left there, until somebody stores something else
+            return p.ghost.get("kvm_field", KV_MERGED)
         raise Unsupported("FileMetaData." + name)
+
+    def setattr(self, eng, p, name, v):
+        if name == "key_value_metadata":
+            p.ghost["kvm_field"] = v
+            p.ghost.setdefault("kvm_stores", []).append(type(v).__name__)
+            return
+        raise Unsupported("store to FileMetaData." + name)
 
     def call_method(self, eng, p, name, args, kw, node):
         if name == "to_bytes":
@@ -68,15 +76,27 @@ class KVList:
     """abstract key_value_metadata list: the validation loop of writer.write_thrift is executed for an arbitrary entry"""
     tracked = False
 
+    def truth(self, eng, p):
+        # the merged list may be empty (every key removed) or not: one Boolean per path
+        if "kvm_nonempty" not in p.ghost:
+            p.ghost["kvm_nonempty"] = z3.Bool("merged_key_values_nonempty")
+        return p.ghost["kvm_nonempty"]
+
     def for_loop(self, eng, p, st):
+        p.ghost["validated_merged_list"] = True
         exit_path, body = p.fork(), p.fork()
         outs = [exit_path]
         for b in eng.assign(st.target, Opaque(("kv", next(eng.counter))), body):
             for r in eng.block(st.body, [b]):
                 if r.ctl in (None, "continue", "break"):
                     continue
+                if isinstance(r.ctl, tuple) and r.ctl[0] == "raise":
+                    r.ghost["raise_in_validation"] = True
                 outs.append(r)
         return outs
+
+
+KV_MERGED = Custom(KVList())        # THE list object update_custom_metadata works on (identity matters)
 
 
 def run(ctx, funcs, timeout, is_meta_arg):
@@ -133,6 +153,19 @@ def run(ctx, funcs, timeout, is_meta_arg):
             res.add(f"update[{tag}].raise_before_any_write", PROVED if st["writes"] == 0 else REFUTED,
                     None if st["writes"] == 0 else {"writes_before_raise": st["writes"]}, 0.0, "trace",
                     "a rejected update (non str/bytes key or value) raises before any byte is written")
+            # the ONLY refusal the property allows is an entry that is not str/bytes: a raise that does not come out of the
+            # validation of an entry of the merged list (e.g. iterating a field that was set to None) rejects a legal update.
+            # Decided by the solver: is the path feasible at all?
+            why = q.ghost.get("raise_reason") or f"raise outside the entry validation ({q.ctl})"
+            if q.ghost.get("raise_in_validation"):
+                res.add(f"update[{tag}].raises_only_for_an_invalid_entry", PROVED, None, 0.0, "trace",
+                        "every raising path comes out of the validation of one entry of the merged list")
+            else:
+                stt, m, secs = solve([*q.pc, *q.axioms], timeout)      # REFUTED == satisfiable == the raise is reachable
+                res.add(f"update[{tag}].raises_only_for_an_invalid_entry", {REFUTED: REFUTED, PROVED: PROVED}.get(stt, UNKNOWN),
+                        {"raise": why, "merged_key_values_nonempty": str(m.eval(q.ghost["kvm_nonempty"], model_completion=True))
+                         if m is not None and "kvm_nonempty" in q.ghost else None} if stt == REFUTED else None, secs,
+                        detail="every raising path comes out of the validation of one entry of the merged list; here: " + why)
             continue
         n_normal += 1
         c1 = st["content"]
@@ -164,6 +197,16 @@ def run(ctx, funcs, timeout, is_meta_arg):
             res.add(f"update[{tag}].{gname}", stt, model, secs, detail=details[gname])
         upd = q.ghost.get("updated") is True
         res.add(f"update[{tag}].updates_the_parsed_metadata", PROVED if upd else REFUTED, None, 0.0, "trace")
+        # whole view of the field: what is serialised is the list update_custom_metadata produced - nobody stored anything else
+        # into fmd.key_value_metadata between the merge and to_bytes (an empty list stays an empty list: removing the last key is
+        # a legal update), and the validation loop ran over that very list
+        same = q.ghost.get("kvm_field", KV_MERGED) is KV_MERGED
+        res.add(f"update[{tag}].serialises_the_merged_key_values", PROVED if same else REFUTED,
+                None if same else {"stored_into_key_value_metadata": q.ghost.get("kvm_stores")}, 0.0, "trace",
+                "fmd.key_value_metadata at to_bytes() is the object update_custom_metadata merged into (no store in between)")
+        val = q.ghost.get("validated_merged_list") is True
+        res.add(f"update[{tag}].validates_the_merged_key_values", PROVED if val else REFUTED, None, 0.0, "trace",
+                "write_thrift's validation loop ran over the merged list on this path")
     if n_normal == 0:
         ctx.engine_error(f"update_file_custom_metadata[{tag}]: no normally returning path")
     ctx.vacuity["covers"] += n_normal
